@@ -5,6 +5,8 @@
 
 use crate::common::{Ctx, Input, Rep};
 use crate::drive::{self, factorial, nth_permutation, par_run, Rng, St};
+#[allow(unused_imports)]
+use crate::common::Tier;
 use crate::model::{self, Model};
 use crate::props::{bad_replay, words_of};
 use ckc_rs::cards::five::Five;
@@ -132,7 +134,10 @@ pub fn run(ctx: &Ctx) -> Rep {
                     st.rep.distinct += 1;
                     st.x.cat[model::key_cat(model::key5(&base)) as usize] += 1;
                     observe_path(st, &base);
-                    if all_orders {
+                    // all 120 slot orders in the thorough tier; in quick for every hand of the five rarest
+                    // categories (straight flush, quads, full house, flush, straight: 19,716 hands) and a seeded 1-in-64 of the rest
+                    let rare = model::key_cat(model::key5(&base)) >= model::CAT_STRAIGHT;
+                    if all_orders || rare || drive::selected(&base, seed, 0x0164, 64) {
                         for p in &perms {
                             let c = [base[p[0] as usize], base[p[1] as usize], base[p[2] as usize], base[p[3] as usize], base[p[4] as usize]];
                             check_order(st, &c, expect);
@@ -164,6 +169,108 @@ pub fn run(ctx: &Ctx) -> Rep {
 
     let (mut r, xs) = drive::merge_states(states);
     rep.merge(r_take(&mut r));
+
+    // ---- call histories within a rank multiset ------------------------------------------------------
+    // A hand ranked right after another hand of the same ranks (a different suit assignment) must still
+    // get its own value: these are the pairs a lossy cache key (prime product, sum or xor of the words,
+    // suit counts) would confuse. All ordered pairs within every rank multiset in the thorough tier
+    // (1.79 G pairs); in quick, all ordered pairs among up to 96 seeded suit assignments per multiset,
+    // always including the flushes.
+    let mut multisets: Vec<[u8; 5]> = Vec::new();
+    for a in 0..13u8 {
+        for b in a..13 {
+            for c3 in b..13 {
+                for d in c3..13 {
+                    for e in d..13 {
+                        if !(a == e) {
+                            multisets.push([a, b, c3, d, e]);
+                        }
+                    }
+                }
+            }
+        }
+    }
+    let cap = ctx.pick(8, 96, 100_000) as usize;
+    let ms: Vec<&[u8; 5]> = multisets.iter().filter(|_| true).collect();
+    let ms_ids: Vec<usize> = (0..ms.len()).filter(|i| !ctx.smoke() || i % 97 == 0).collect();
+    let hs = par_run(ctx, ms_ids.len(), mk, |st, ui| {
+        let ranks = ms[ms_ids[ui]];
+        // all hands (sets of distinct cards) with these ranks: suit assignments, de-duplicated as sets
+        let mut hands: Vec<[u8; 5]> = Vec::new();
+        for code in 0..1024u32 {
+            let mut h = [0u8; 5];
+            for k in 0..5 {
+                h[k] = model::idx(ranks[k], ((code >> (2 * k)) & 3) as u8);
+            }
+            let mut s = h;
+            s.sort_unstable();
+            if s.windows(2).any(|w| w[0] == w[1]) {
+                continue;
+            }
+            // equal ranks: keep one representative per set (suits ascending within equal ranks)
+            let mut canonical = true;
+            for k in 1..5 {
+                if ranks[k] == ranks[k - 1] && h[k] < h[k - 1] {
+                    canonical = false;
+                }
+            }
+            if canonical {
+                hands.push(h);
+            }
+        }
+        if hands.len() > cap {
+            let mut rng = Rng::new(seed, 0xC01_7000 + ms_ids[ui] as u64);
+            let (mut flush, mut other): (Vec<[u8; 5]>, Vec<[u8; 5]>) = hands.into_iter().partition(|h| h.iter().all(|&c| model::suit_of(c) == model::suit_of(h[0])));
+            rng.shuffle(&mut other);
+            other.truncate(cap - flush.len().min(cap));
+            flush.extend(other);
+            hands = flush;
+        }
+        let words: Vec<[u32; 5]> = hands.iter().map(words_of).collect();
+        let expect: Vec<u16> = hands.iter().map(|h| m.ord5(h)).collect();
+        let mut k = 0usize;
+        for pi in 0..hands.len() {
+            for ci in 0..hands.len() {
+                if pi == ci {
+                    continue;
+                }
+                k += 1;
+                st.flight("Five ranking after a same-ranks hand", &words[ci]);
+                let (p, c) = (Five::from(words[pi]), Five::from(words[ci]));
+                // rotate through the entry points; the plain one always
+                let got0 = {
+                    let _ = p.hand_rank_value();
+                    c.hand_rank_value()
+                };
+                let (got1, e1) = match k % 5 {
+                    0 => ({ let _ = p.hand_rank_value_and_hand(); c.hand_rank_value_and_hand().0 }, 1),
+                    1 => ({ let _ = p.hand_rank(); c.hand_rank().value }, 2),
+                    2 => ({ let _ = p.hand_rank_value_validated(); c.hand_rank_value_validated() }, 3),
+                    3 => ({ let _ = p.hand_rank_validated(); c.hand_rank_validated().value }, 4),
+                    _ => ({ let _ = evaluate::five_cards(words[pi]); evaluate::five_cards(words[ci]) }, 5),
+                };
+                st.rep.evaluations += 4;
+                for (got, e) in [(got0, 0usize), (got1, e1)] {
+                    if got != expect[ci] {
+                        let mut both = hands[pi].to_vec();
+                        both.extend_from_slice(&hands[ci]);
+                        st.rep.violation(
+                            "the value does not depend on which hand was ranked before",
+                            &format!("{} after ranking a hand of the same ranks", ENTRIES[e]),
+                            Input::Idx(both),
+                            format!("{} ({})", expect[ci], describe(model::key5(&hands[ci]))),
+                            format!("{} right after ranking {}", got, model::hand_name(&hands[pi])),
+                        );
+                    }
+                }
+            }
+        }
+        st.rep.add("same_rank_multiset_call_histories(prev, cur)", k as u64);
+    });
+    let (mut hr, _) = drive::merge_states(hs);
+    hr.distinct = 0;
+    rep.merge(hr);
+    rep.add("rank_multisets", ms_ids.len() as u64);
     let mut acc = mk();
     for x in xs {
         for (a, b) in acc.values_seen.iter_mut().zip(&x.values_seen) {
@@ -220,8 +327,8 @@ pub fn run(ctx: &Ctx) -> Rep {
     }
     rep.rule = format!(
         "every 5-subset of the 52 model cards (enumerated once each = distinct), each in {} through 6 entry points; \
-         oracle = ordinal of the rule-based strength key among the 7462 classes; all subsets are non-trivial",
-        if all_orders { "all 120 slot orders" } else { "canonical, reversed and 4 seeded slot orders" }
+         plus two-call histories (a hand ranked right after another hand of the same ranks) for all ordered pairs within each of the 6175 rank multisets (quick: among up to 96 suit assignments per multiset, flushes always included); oracle = ordinal of the rule-based strength key among the 7462 classes; all subsets are non-trivial",
+        if all_orders { "all 120 slot orders" } else { "canonical, reversed and 4 seeded slot orders (all 120 for every straight or better and a seeded 1-in-64 of the other hands)" }
     );
     rep
 }
@@ -234,6 +341,35 @@ pub fn replay(_ctx: &Ctx, inp: &Input, _clause: &str) -> Rep {
     let mut rep = Rep::new();
     let m = Model::build();
     match inp {
+        Input::Idx(v) if v.len() == 10 && v.iter().all(|&i| i < 52) => {
+            // a two-call history: previous hand, current hand; every entry point
+            let p = words_of(&[v[0], v[1], v[2], v[3], v[4]]);
+            let cidx = [v[5], v[6], v[7], v[8], v[9]];
+            let c = words_of(&cidx);
+            let expect = m.ord5(&cidx);
+            let r = drive::guard(|| {
+                let (pf, cf) = (Five::from(p), Five::from(c));
+                [
+                    { let _ = pf.hand_rank_value(); cf.hand_rank_value() },
+                    { let _ = pf.hand_rank_value_and_hand(); cf.hand_rank_value_and_hand().0 },
+                    { let _ = pf.hand_rank(); cf.hand_rank().value },
+                    { let _ = pf.hand_rank_value_validated(); cf.hand_rank_value_validated() },
+                    { let _ = pf.hand_rank_validated(); cf.hand_rank_validated().value },
+                    { let _ = evaluate::five_cards(p); evaluate::five_cards(c) },
+                ]
+            });
+            match r {
+                Ok(got) => {
+                    for k in 0..6 {
+                        if got[k] != expect {
+                            rep.violation("the value does not depend on which hand was ranked before", ENTRIES[k], inp.clone(), format!("{}", expect), format!("{}", got[k]));
+                        }
+                    }
+                }
+                Err(msg) => rep.violation("panic", "Five ranking", inp.clone(), "normal return".into(), msg),
+            }
+            rep.distinct = 1;
+        }
         Input::Idx(v) if v.len() == 5 && v.iter().all(|&i| i < 52) => {
             let c = [v[0], v[1], v[2], v[3], v[4]];
             let mut sorted = c;
